@@ -466,6 +466,7 @@ func c09Exec(t *testing.T, rng *vrng, transport string, plan []string) (c09In, c
 		}
 		return n
 	}
+	byTicker := false
 	startRound := func(conf uint64) ([]common.Hash, int) {
 		nb := (rowsBelow(conf) + batchSize - 1) / batchSize
 		if nb == 0 {
@@ -477,14 +478,21 @@ func c09Exec(t *testing.T, rng *vrng, transport string, plan []string) (c09In, c
 		h.mu.Lock()
 		h.armed, h.roundConf = nb, conf
 		h.mu.Unlock()
-		select {
-		case mon.newTxAdded <- struct{}{}:
-		case <-time.After(time.Second):
+		wait := 300 * time.Millisecond
+		if byTicker {
+			// nobody new starts waiting: the next blocks alone (the loop's own ticker) must make
+			// the monitor ask about what is still unresolved
+			wait = 5 * time.Second
+		} else {
+			select {
+			case mon.newTxAdded <- struct{}{}:
+			case <-time.After(time.Second):
+			}
 		}
 		select {
 		case hs := <-h.entered:
 			return hs, nb
-		case <-time.After(300 * time.Millisecond):
+		case <-time.After(wait):
 			h.mu.Lock()
 			h.armed = 0
 			h.mu.Unlock()
@@ -633,6 +641,30 @@ func c09Exec(t *testing.T, rng *vrng, transport string, plan []string) (c09In, c
 			conf := h.nonces[len(h.nonces)-1] + 1
 			if hs, nb := startRound(conf); hs != nil {
 				finishRound(conf, hs, nb, classOf)
+			}
+		case p == "round-all-errors" || p == "round-by-ticker":
+			// first every receipt query of a round fails; then — nothing else changing, the
+			// confirmed nonce included — further blocks arrive
+			if closed || len(h.hashes) == 0 {
+				continue
+			}
+			conf := h.nonces[len(h.nonces)-1] + 1
+			if p == "round-all-errors" {
+				if hs, nb := startRound(conf); hs != nil {
+					finishRound(conf, hs, nb, func(int) string { return "othererr" })
+				}
+				continue
+			}
+			if rowsBelow(conf) == 0 {
+				continue
+			}
+			byTicker = true
+			hs, nb := startRound(conf)
+			byTicker = false
+			if hs != nil {
+				finishRound(conf, hs, nb, classOf)
+			} else {
+				in.Steps = append(in.Steps, c09Step{T: "missed-check", C: conf})
 			}
 		case p == "abandon":
 			// a party stops waiting (its context ends) before its transaction is resolved; its
@@ -972,6 +1004,9 @@ func TestVerifC09(t *testing.T) {
 		{"send", "watch", "abandon", "watch", "round-watch-inflight", "round-all", "close"},
 		{"send", "watch", "round-watch-during-delivery", "round-all", "watch", "close"},
 		{"send", "send", "cancel-fail", "watch", "round-all", "close"},
+		{"send", "watch", "round-all-errors", "round-by-ticker", "close"},
+		{"send", "send", "watch", "watch", "round-all-errors", "round-by-ticker", "round-by-ticker", "watch", "close"},
+		{"send", "round-by-ticker", "watch", "round-by-ticker", "close"},
 		{"send", "cancel-ok", "watch", "cancel-fail", "round-all", "round-all", "close"},
 	}
 	emitCase := func(transport string, plan []string) {
